@@ -222,7 +222,7 @@ def size_formulas(ctx, L):
             ('pad', 'padding = (member.alignment - byte_size % member.alignment) % member.alignment',
              'padding before a member = distance of the running size to the member alignment'),
             ('acc', 'byte_size += member.byte_size + padding', 'running size adds padding and member size'),
-            ('marker', 'if is_member_dynamic(prev_member) and prev_member.alignment < member.alignment:\n    prev_member.padding = -member.alignment\nelse:\n    prev_member.padding = padding',
+            ('marker', 'if (prev_member.is_dynamic or prev_member.greedy or prev_member.kind != Kind.FIXED) and prev_member.alignment < member.alignment:\n    prev_member.padding = -member.alignment\nelse:\n    prev_member.padding = padding',
              'after a dynamic member of smaller alignment the padding is the marker -alignment, otherwise the static padding goes to the previous member'),
             ('end-pad', 'padding = (alignment - byte_size % alignment) % alignment\nbyte_size += padding', 'end padding up to the struct alignment'),
             ('result', 'node_.byte_size, node_.alignment = (byte_size, alignment)', 'publishes size and alignment')):
